@@ -136,8 +136,13 @@ func c11Gen(r *vRand, idx int) *c11Grammar {
 		g.switchTo = append(g.switchTo, sw)
 		return len(g.rules) - 1
 	}
-	// a space rule: blanks and newlines
+	// a space rule: blanks and newlines; in every third grammar blanks only, so that a newline is
+	// (unless another rule happens to take it) an invalid token of one character and the lexer
+	// crosses it by its forced one-character progress (seeded change C11-r13m1: wrong columns after it)
 	sp := &lgNode{kind: lgRep, min: 1, max: -1, sub: []*lgNode{{kind: lgSet, spelling: `[ \n]`, cls: lgClass{items: [][2]rune{{' ', ' '}, {'\n', '\n'}}}}}}
+	if idx%3 == 1 {
+		sp = &lgNode{kind: lgRep, min: 1, max: -1, sub: []*lgNode{{kind: lgSet, spelling: `[ ]`, cls: lgClass{items: [][2]rune{{' ', ' '}}}}}}
+	}
 	add("WS", sp, 0, allSC, true, -1)
 	if withClass {
 		// identifiers include non-ASCII letters: é and σ as runes, the two bytes of é in byte mode
